@@ -621,7 +621,8 @@ class BaseWorkplace(object, metaclass=abc.ABCMeta):
         for facility in self.facility_list:
             facility.insert_absence_time_list(absence_time_list)
         for step_time in sorted(absence_time_list):
-            self.cost_list.insert(step_time, 0.0)
+            if step_time < len(self.cost_list):
+                self.cost_list.insert(step_time, 0.0)
             if step_time < len(self.placed_component_id_record):
                 if step_time == 0:
                     self.placed_component_id_record.insert(step_time, [])
